@@ -218,4 +218,19 @@ def run(tier, seed):
                 cases.append(make_case(rng, n, sg, d, big=(r % 6 == 5)))
         cases += parcopy_cases(rng, tier)
         corr_campaign(res, h, drv, cases, fl)
+    # parcpy / parSetZero must transfer exactly `size` elements also when the OpenMP runtime GRANTS fewer members than
+    # requested (nested region, thread limit) or runs the members in another order: stand-in runtime of the C12 check
+    hs, err = build_harness("ompseq")
+    if err:
+        res.broken.append(("harness build (ompseq)", err))
+    else:
+        rng = Rng(seed ^ 0xC17AA)
+        cases = []
+        for c in parcopy_cases(rng, "quick"):
+            for cap in (1, 2, 0):
+                cc = dict(c)
+                cc["line"] = "@0:8:%x:%d %s" % (rng.below(1 << 30), cap, c["line"].lstrip("!^"))
+                cc["tag"] = c["tag"] + "|granted<=%s" % (cap or "all")
+                cases.append(cc)
+        corr_campaign(res, hs, drv, cases, "ompseq")
     return res.finish()
